@@ -22,6 +22,12 @@ def check(prop, tier, seed):
         ev, path = simple.run_lab('status', stims, tag, label)
         simple.validate(prop, 'Trace_Status', verdict, ev, path, label, cov)
         cov['samples'].append({'family': label, 'stimulus': simple.sample_of(stims)})
+    # classification through the generated client: canned responses (status in head / trailers / HTTP status only)
+    from . import p_call, decomp
+    mstims = p_call.mock_stims(seed, tier)
+    mev, mpath = simple.run_lab('call', mstims, tag, 'mock_responses', annotate=decomp.annotate)
+    simple.validate(prop, 'Trace_Call', verdict, mev, mpath, 'mock_responses', cov, clause_filter=p_call.clause_filter('C04'), harness_clauses=p_call.HARNESS)
+    cov['samples'].append({'family': 'mock_responses', 'stimulus': simple.sample_of(mstims)})
     cov['exhaustive_tables'] = 'HTTP status 100..599 and HTTP/2 reasons 0..20 (+3 unknown) are enumerated completely on every run'
     return simple.finish(prop, tier, seed, verdict, cov, mc, t0,
                          ['the class alphabet stands for all bytes the percent-codec distinguishes; arbitrary Unicode is covered by seeded samples only',
